@@ -51,6 +51,9 @@ def setup(ctx):
     for be in ("-c", "-python", "-python-native"):
         jobs.append(("rich%s.in" % be, common.igate_job("rich", {"rich.h": rich}, ["rich.h"], be, channels=("oc", "od"), opts=["-unique-names"] if be == "-c" else [])))
     jobs.append(("rich-odonly.in", common.igate_job("rich", {"rich.h": rich}, ["rich.h"], "-python-native", channels=("od",))))
+    declined = common.read_fixture("single/declined.h")
+    for be in ("-c", "-python-native"):
+        jobs.append(("declined%s.in" % be, common.igate_job("declined", {"declined.h": declined}, ["declined.h"], be, channels=("oc", "od"))))
     _gen_real_universes(ctx, env)
     for name, job in jobs:
         root = runner.fresh_dir("dbreal")
@@ -328,6 +331,16 @@ def gen_c20(ctx):
                        {"op": "uniq", "seed": n, "even_empty": True}, {"op": "verify", "sweep": uniq == 0}, {"op": "uniq", "seed": n + 1, "even_empty": True}]
                 plans.append({"id": i, "focus": "C20", "build": "san", "universe": u, "faults": {}, "ops": ops})
                 i += 1
+    # every database written by the real interrogate, alone: totality sweep, counts vs entries (no phantom entries)
+    for name in sorted(x for x in os.listdir(REAL_DIR) if x.endswith(".in")):
+        for kind in ("san", "rel"):
+            plans.append({"id": i, "focus": "C20", "build": kind, "universe": {"real": [name]}, "faults": {},
+                          "ops": [{"op": "reg_db", "lib": 0}, {"op": "verify", "sweep": True}]})
+            i += 1
+    for ui, files in enumerate(REAL_UNIVERSES):
+        plans.append({"id": i, "focus": "C20", "build": "san", "universe": {"real": files}, "faults": {},
+                      "ops": [{"op": "reg_db", "lib": li} for li in range(len(files))] + [{"op": "verify", "sweep": True}]})
+        i += 1
     # an empty database (nothing registered) and a database whose only file failed to load
     plans.append({"id": i, "focus": "C20", "build": "san", "universe": {"seed": 5, "k": 1, "size": 2, "shared": 0, "minors": [3]}, "faults": {},
                   "ops": [{"op": "uniq", "seed": 1, "even_empty": True}, {"op": "verify", "sweep": True}]})
